@@ -74,6 +74,29 @@ def _run(P, rep, tier, prefix):
     I = Interp(P, while_bound=3)
     params = ra.params()
 
+    # the helper is analysed with the constant arguments of each of its call sites
+    # (plus the bare signature), so that optional behaviours selected by the callers are covered
+    site_kwargs = [{}]
+    for f in R.funcs:
+        for n in walk_no_nested(f.node):
+            if isinstance(n, ast.Call):
+                rr_ = P.resolve_call(f, n, self_cls=R.cls if (f.cls is not None and f.cls in R.cls.mro()) else None)
+                if isinstance(rr_, list) and ra in rr_:
+                    kw = {}
+                    for i_, a_ in enumerate(n.args[1:], start=2):
+                        try:
+                            kw[params[i_]] = P.fold(a_, f.module, f.cls)
+                        except Exception:
+                            pass
+                    for k_ in n.keywords:
+                        if k_.arg and k_.arg != params[1]:
+                            try:
+                                kw[k_.arg] = P.fold(k_.value, f.module, f.cls)
+                            except Exception:
+                                pass
+                    if kw and kw not in site_kwargs:
+                        site_kwargs.append(kw)
+
     def thunk():
         obj = AObj(R.cls)
         st = AStream('input')
@@ -81,8 +104,8 @@ def _run(P, rep, tier, prefix):
         delim = Unk('c', kinds=['bytes'], taint=[], src=('param', params[1]))
         delim.facts.add('truthy')
         args = [obj, delim]
-        kw = {}
-        if len(params) > 2:
+        kw = dict(site_kwargs[I.choose(len(site_kwargs), 'call-site')])
+        if len(params) > 2 and params[2] not in kw:
             kw[params[2]] = Unk('chunk_size', kinds=['int'], src=('param', params[2]))
             kw[params[2]].facts.add('>=1')
         return I.call_function(ra, args, kw, None, self_cls=R.cls), st
